@@ -4,7 +4,8 @@
 # other runs reading /repo are not disturbed), runs the quick checks against it (VERIF_REPO), removes it.
 set -u
 P=$1; shift
-S=/tmp/repo-trial
+S=${TRIAL_DIR:-/tmp/repo-trial}
+[ -n "${TRIAL_DIR:-}" ] && export VERIF_BUILD_TAG=-$(basename $S)
 git -C /repo worktree remove --force $S 2>/dev/null; rm -rf $S
 git -C /repo worktree add -q --detach $S HEAD || exit 9
 trap 'git -C /repo worktree remove --force $S 2>/dev/null; rm -rf $S' EXIT
@@ -13,6 +14,6 @@ if [[ "$P" == *.rev ]]; then git apply -R "${P%.rev}"; else git apply "$P" 2>/de
 cd /verif
 for p in "$@"; do
   echo "=== $p with $(basename $(dirname $P))/$(basename $P)"
-  VERIF_REPO=$S VERIF_EVID_DIR=/tmp/mut-evid python3 check.py $p --tier quick 2>/dev/null | grep -E "^(VIOLATION|OK|INCONCLUSIVE|HARNESS|  key=)" | cut -c1-260 | head -12
+  VERIF_REPO=$S VERIF_EVID_DIR=/tmp/mut-evid${VERIF_BUILD_TAG:-} python3 check.py $p --tier quick 2>/dev/null | grep -E "^(VIOLATION|OK|INCONCLUSIVE|HARNESS|  key=)" | cut -c1-260 | head -12
   echo "rc=${PIPESTATUS[0]}"
 done
